@@ -263,6 +263,12 @@ func (v *Verifier) PackageObligations() []*PkgObligation {
 	}
 	out = append(out, &PkgObligation{Name: "pkg#register-callers", Props: []string{"C04", "C08"}, Holds: okC,
 		Detail: strings.Join(callers, ", "), Desc: "register is called only while rendering a package token (token.render, Group.renderItems); found: " + strings.Join(callers, ", ")})
+	// C07/C03: the result of register is a function of what it reads (justifies regName/regImp)
+	if reg := v.fnByKey["(*File).register"]; reg != nil {
+		why := v.functionalWhyNot(reg, map[*ssa.Function]bool{})
+		out = append(out, &PkgObligation{Name: "File.register#functional", Props: []string{"C07", "C03", "C08", "C01", "C13"}, Holds: why == "",
+			Detail: why, Desc: "register and the functions it calls contain no map iteration, interface call, callback or unmodelled call, except callees whose contract determines their result exactly (ensures result == expr): so (result, imports') is a function of the File fields and table it reads, which is what the spec functions regName/regImp denote"})
+	}
 	// globals of the package and who references them
 	var globals []string
 	for _, m := range v.enc.pkg.Members {
@@ -287,4 +293,69 @@ func (v *Verifier) PackageObligations() []*PkgObligation {
 	out = append(out, &PkgObligation{Name: "pkg#globals-are-ground-tables", Props: []string{"C09", "C07"}, Holds: len(unknown) == 0,
 		Detail: strings.Join(unknown, ", "), Desc: "every package-level variable is a table initialised by a composite literal of constants (" + strings.Join(globals, ", ") + ")"})
 	return out
+}
+
+// determinedResult: some ensures clause has the form  result == e  /  result <==> e  with e not mentioning result.
+func (v *Verifier) determinedResult(fn *ssa.Function) bool {
+	bc := v.boundContract(fn)
+	if bc == nil {
+		return false
+	}
+	for _, c := range bc.Ensures {
+		e := c.Expr
+		if e.Kind == "binary" && (e.Op == "==" || e.Op == "<==>") && e.X.Kind == "ident" && e.X.Name == "result" && !strings.Contains(e.Y.String(), "result") {
+			return true
+		}
+	}
+	return false
+}
+
+var deterministicExterns = map[string]bool{
+	"fmt.Sprintf": true, "strings.Contains": true, "strings.HasSuffix": true, "strings.HasPrefix": true, "strings.ToLower": true,
+	"strings.LastIndex": true, "regexp.MustCompile": true, "(*regexp.Regexp).ReplaceAllString": true,
+	"unicode/utf8.DecodeRuneInString": true, "unicode.IsDigit": true, "strconv.Quote": true,
+}
+
+// functionalWhyNot returns "" when fn computes a function of its reads, else the reason.
+func (v *Verifier) functionalWhyNot(fn *ssa.Function, seen map[*ssa.Function]bool) string {
+	if seen[fn] {
+		return ""
+	}
+	seen[fn] = true
+	for _, b := range fn.Blocks {
+		for _, in := range b.Instrs {
+			switch x := in.(type) {
+			case *ssa.Range:
+				if _, isMap := x.X.Type().Underlying().(*types.Map); isMap {
+					return fnDisplay(fn) + " iterates over a map"
+				}
+			case *ssa.Go, *ssa.Select, *ssa.Send, *ssa.MakeChan:
+				return fnDisplay(fn) + " uses concurrency primitives"
+			case ssa.CallInstruction:
+				cc := x.Common()
+				if cc.IsInvoke() {
+					return fnDisplay(fn) + " makes an interface call"
+				}
+				switch callee := cc.Value.(type) {
+				case *ssa.Builtin:
+				case *ssa.Function:
+					if callee.Pkg != v.enc.pkg || callee.Blocks == nil {
+						if !deterministicExterns[callee.String()] {
+							return fnDisplay(fn) + " calls " + callee.String()
+						}
+						continue
+					}
+					if v.determinedResult(callee) {
+						continue
+					}
+					if why := v.functionalWhyNot(callee, seen); why != "" {
+						return why
+					}
+				default:
+					return fnDisplay(fn) + " calls through a function value"
+				}
+			}
+		}
+	}
+	return ""
 }
